@@ -116,7 +116,7 @@ fn worker(args: &[String]) {
     let stride: u64 = arg_val(args, "--stride").and_then(|s| s.parse().ok()).unwrap_or(1);
     quiet_stderr();
     if fam.abort_is_violation {
-        set_rlimit_as(16 << 30);
+        set_rlimit_as(3 << 30);
     }
     let out = std::io::stdout();
     let mut leaked = 0usize;
@@ -153,14 +153,15 @@ fn worker(args: &[String]) {
 struct FamAgg {
     evaluations: u64,
     nontrivial: u64,
-    distinct_hashes: BTreeSet<String>,
+    distinct_hashes: std::collections::HashSet<u64>,
     probes: BTreeMap<String, u64>,
     counters: BTreeMap<String, u64>,
     sim_ns: u128,
     steps: u64,
     switches: u64,
     samples: Vec<Value>,
-    violations: Vec<(u64, u64, Violation)>, // (index, seed, violation)
+    violations: Vec<(u64, u64, Violation)>, // (index, seed, violation), capped
+    violating_runs: u64,
     harness_errors: Vec<(u64, u64, String)>,
     hashes_by_index: BTreeMap<u64, String>,
     progress_done: u64,
@@ -177,7 +178,7 @@ fn absorb(agg: &mut FamAgg, v: &Value, keep_hash_below: u64) {
     let hash = v["hash"].as_str().unwrap_or("").to_string();
     if v["nontrivial"].as_bool().unwrap_or(false) {
         agg.nontrivial += 1;
-        agg.distinct_hashes.insert(hash.clone());
+        agg.distinct_hashes.insert(u64::from_str_radix(&hash, 16).unwrap_or(0));
     }
     if idx < keep_hash_below {
         agg.hashes_by_index.insert(idx, hash);
@@ -211,6 +212,11 @@ fn absorb(agg: &mut FamAgg, v: &Value, keep_hash_below: u64) {
         agg.samples.push(json!({"index": idx, "seed": seed, "case": v["sample"].clone()}));
     }
     if let Some(viol) = v["violation"].as_object() {
+        agg.violating_runs += 1;
+    }
+    if let Some(viol) = v["violation"].as_object()
+        && agg.violations.len() < 100_000
+    {
         agg.violations.push((
             idx,
             seed,
@@ -239,8 +245,8 @@ fn drive_worker(
     end: u64,
     stride: u64,
     deadline: Instant,
-) -> (Vec<Value>, Vec<String>) {
-    let mut results = Vec::new();
+    sink: &mut dyn FnMut(Value),
+) -> Vec<String> {
     let mut errors = Vec::new();
     let mut next = start;
     while next < end {
@@ -279,7 +285,7 @@ fn drive_worker(
                     if let Some(i) = v["index"].as_u64() {
                         next = i + stride;
                     }
-                    results.push(v);
+                    sink(v);
                 }
                 started = None;
             } else if let Some(rest) = line.strip_prefix("N ") {
@@ -301,7 +307,7 @@ fn drive_worker(
                     None => format!("exit status {:?}", status.code()),
                 };
                 if fam.abort_is_violation {
-                    results.push(json!({
+                    sink(json!({
                         "seed": seed, "index": i, "hash": "aborted", "steps": 0, "switches": 0, "sim_ns": 0,
                         "threads": 0, "leaked": 0, "nontrivial": true,
                         "violation": {"class": "abort", "detail": format!("worker process {how} while running this case")},
@@ -321,7 +327,7 @@ fn drive_worker(
             break;
         }
     }
-    (results, errors)
+    errors
 }
 
 fn run_family(fam: &Family, tier: Tier, vseed: u64, runs: u64, workers: u64, gate: u64) -> (FamAgg, Vec<String>) {
@@ -331,27 +337,30 @@ fn run_family(fam: &Family, tier: Tier, vseed: u64, runs: u64, workers: u64, gat
         Tier::Thorough => Duration::from_secs(3 * 3600),
     };
     let deadline = t0 + wall_budget;
-    let mut agg = FamAgg::default();
+    let shared = std::sync::Arc::new(std::sync::Mutex::new(FamAgg::default()));
     let mut errors = Vec::new();
     let workers = workers.min(runs).max(1);
     let handles: Vec<_> = (0..workers)
         .map(|w| {
             let fam: &'static Family = find_family(fam.name);
-            std::thread::spawn(move || drive_worker(fam, tier, vseed, w, runs, workers, deadline))
+            let shared = shared.clone();
+            std::thread::spawn(move || {
+                // results are folded into the aggregate as they arrive (a thorough run has millions)
+                let mut sink = |v: Value| absorb(&mut shared.lock().unwrap(), &v, gate);
+                drive_worker(fam, tier, vseed, w, runs, workers, deadline, &mut sink)
+            })
         })
         .collect();
     for h in handles {
-        let (res, errs) = h.join().expect("driver thread");
-        for v in &res {
-            absorb(&mut agg, v, gate);
-        }
-        errors.extend(errs);
+        errors.extend(h.join().expect("driver thread"));
     }
+    let mut agg = std::mem::take(&mut *shared.lock().unwrap());
     // Determinism gate: re-run the first `gate` indices in one fresh process with a
     // different stride/worker layout and compare the event-log hashes.
     if gate > 0 && errors.is_empty() {
         let n = gate.min(runs);
-        let (res, errs) = drive_worker(fam, tier, vseed, 0, n, 1, deadline);
+        let mut res: Vec<Value> = Vec::new();
+        let errs = drive_worker(fam, tier, vseed, 0, n, 1, deadline, &mut |v| res.push(v));
         errors.extend(errs);
         let mut mismatches = 0;
         for v in &res {
@@ -590,7 +599,7 @@ fn minimise_cmd(args: &[String]) {
         if class == "abort" {
             std::process::exit(3);
         }
-        set_rlimit_as(16 << 30);
+        set_rlimit_as(3 << 30);
     }
     let first = run_case(fam, tier, Choices::from_seed(seed), false);
     let Some(v0) = first.violation.clone() else { std::process::exit(3) };
@@ -657,7 +666,7 @@ fn replay_inner(args: &[String]) {
         quiet_stderr();
     }
     if fam.abort_is_violation {
-        set_rlimit_as(16 << 30);
+        set_rlimit_as(3 << 30);
     }
     let choices = match doc["choices"].as_array() {
         Some(a) => Choices::from_list(a.iter().map(|v| v.as_u64().unwrap_or(0) as u32).collect()),
@@ -738,14 +747,19 @@ fn selfcheck(args: &[String]) -> i32 {
             let hs: Vec<_> = (0..workers)
                 .map(|w| {
                     let fam: &'static Family = find_family(fam.name);
-                    std::thread::spawn(move || drive_worker(fam, Tier::Quick, vseed, w, runs, workers, deadline))
+                    std::thread::spawn(move || {
+                        let mut m: Vec<(u64, String)> = Vec::new();
+                        drive_worker(fam, Tier::Quick, vseed, w, runs, workers, deadline, &mut |v: Value| {
+                            m.push((v["index"].as_u64().unwrap_or(0), v["hash"].as_str().unwrap_or("").to_string()))
+                        });
+                        m
+                    })
                 })
                 .collect();
             let mut m = BTreeMap::new();
             for h in hs {
-                let (res, _) = h.join().unwrap();
-                for v in res {
-                    m.insert(v["index"].as_u64().unwrap_or(0), v["hash"].as_str().unwrap_or("").to_string());
+                for (i, hash) in h.join().unwrap() {
+                    m.insert(i, hash);
                 }
             }
             m
@@ -822,7 +836,7 @@ fn write_evidence(
             "sim_time_s": (a.sim_ns as f64) / 1e9,
             "max_threads_in_a_run": a.max_threads,
             "progress_fraction": if a.progress_total > 0 { Some(a.progress_done as f64 / a.progress_total as f64) } else { None },
-            "violating_runs": a.violations.len(),
+            "violating_runs": a.violating_runs,
             "wall_s": a.wall_s,
             "distinct_values_covered": a.cover.iter().map(|(k, v)| (k.clone(), v.len())).collect::<BTreeMap<String, usize>>(),
         }));
